@@ -12,7 +12,7 @@ def apply(F):
         F.insert_in([], S[0], '    closed spec fn ser(&self) -> Bytes { %s(&self.0) }' % f)
         nm = 'write_exact_%s_body' % t.lower()
         F.hoist(S, r'fn write_exact\b', nm, t, trait='Serializable')
-        F.contract(S, r'fn write_exact\b', attrs=['#[verifier::external_body]'], discharged_by='N7 delegation to the verified %s (cross-checked by kani:write_exact_x25519)' % nm)
+        F.contract(S, r'fn write_exact\b', attrs=['#[verifier::external_body]'], discharged_by='N7 delegation to the verified %s (cross-checked by kani:write_exact_x25519_copies)' % nm)
         F.contract([], r'fn %s\b' % nm, clauses='''
     requires old(buf)@.len() == 32,
     ensures /*@C12*/ final(buf)@ == this.ser(),
